@@ -135,8 +135,7 @@ def bmadxDrift (L : α) (v : Vec7 α) (E0 mc2 : α) : Vec7 α × α :=
 /-- one drift-kick-drift step of `Quadrupole._track_bmadx` -/
 def bmadxQuadStep (L k1 stepL eps : α) (p : BP α) (p0c mc2 : α) : BP α :=
   let relp := 1.0 + p.pz
-  let b1 := k1 * L
-  let k := b1 / (L * relp)
+  let k := k1 / relp          -- (after the `fix:` commit; was `k1*L / (L*rel_p)`, NaN at L = 0)
   let tx := quadCoef (-k) stepL relp eps
   let ty := quadCoef k stepL relp eps
   let z := p.z + tx.c1 * (p.x * p.x) + tx.c2 * p.x * p.px + tx.c3 * (p.px * p.px)
